@@ -157,6 +157,23 @@ impl<'a> FnTr<'a> {
             match s {
                 Stmt::Local(l) => {
                     let init = l.init.as_ref().ok_or("let without init")?;
+                    // `let PAT = e?;` on an Option in an Option-returning function is
+                    // `let Some(PAT) = e else { return None; };`
+                    if init.diverge.is_none() {
+                        if let Expr::Try(t) = &*init.expr {
+                            let inner = &t.expr;
+                            let pat = match &l.pat {
+                                Pat::Type(pt) => &*pt.pat,
+                                p => p,
+                            };
+                            let desugared: Stmt = parse_quote! { let Some(#pat) = #inner else { return None; }; };
+                            let mut rest: Vec<Stmt> = vec![desugared];
+                            rest.extend(stmts[i + 1..].iter().cloned());
+                            let seq = self.block_tail(&rest, env)?;
+                            st.extend(seq.stmts);
+                            return Ok(Seq { stmts: st, tail: seq.tail });
+                        }
+                    }
                     if let Some((_, else_blk)) = &init.diverge {
                         // let PAT = e else { diverge };
                         let (sc, sty) = self.ex(&init.expr, env, &mut st, None)?;
